@@ -158,6 +158,8 @@ func lsMonitor(cw *caseWriter, tag string, in, obs []uint64) {
 		return int(r[q])
 	}
 	prevInflight := inflightOf(ns)
+	// the node's commit index and configuration indexes as of the last state seen (the gate of membership changes reads them)
+	nodeCommit, latestIdx, committedIdx := ns.sc[sCommit], ns.sc[sLatestIdx], ns.sc[sCommittedIdx]
 	prevLast := lastAtElection
 	prevSnap := ns.sc[sLastSnapIdx]
 	latest := ns.latest
@@ -201,6 +203,7 @@ func lsMonitor(cw *caseWriter, tag string, in, obs []uint64) {
 					}
 				}
 				prevInflight = inflightOf(ls)
+				nodeCommit, latestIdx, committedIdx = ls.sc[sCommit], ls.sc[sLatestIdx], ls.sc[sCommittedIdx]
 				prevLast = max64(ls.sc[sLastLogIdx], ls.sc[sLastSnapIdx])
 				prevSnap = ls.sc[sLastSnapIdx]
 				latest = ls.latest
@@ -208,6 +211,20 @@ func lsMonitor(cw *caseWriter, tag string, in, obs []uint64) {
 				if ci != 0 && ci <= lastAtElection {
 					cw.monitor("C03", tag, "commit-index-on-old-term-entry-without-own-term-entry", "op %d: the leader's commit index moved to %d, its last index at election was %d (nothing of its own term is committed yet)", i, ci, lastAtElection)
 					cw.monitor("C05", tag, "commit-index-on-old-term-entry-without-own-term-entry", "op %d: commit index %d <= last index at election %d", i, ci, lastAtElection)
+				}
+			}
+		}
+		if k == 7 && len(o) >= 2 && o[1] == 1 {
+			// configurationChangeChIfStable: a membership change is taken only when the previous configuration is committed
+			// AND an entry of this leader's own term (its no-op, index lastAtElection+1) is committed
+			if nodeCommit <= lastAtElection {
+				for _, pr := range []string{"C03", "C07"} {
+					cw.monitor(pr, tag, "membership-change-accepted-before-own-term-entry-committed", "op %d: the leader would take a membership change with commit index %d; its no-op sits at index %d and is not committed", i, nodeCommit, lastAtElection+1)
+				}
+			}
+			if latestIdx != committedIdx {
+				for _, pr := range []string{"C03", "C07"} {
+					cw.monitor(pr, tag, "membership-change-accepted-while-previous-uncommitted", "op %d: the leader would take a membership change while its latest configuration (index %d) is not committed (committed configuration index %d)", i, latestIdx, committedIdx)
 				}
 			}
 		}
@@ -261,6 +278,10 @@ func c08gen(cw *caseWriter, tier string, r *rng) {
 	if tier != "quick" {
 		cnt = 30000
 	}
+	c08genN(cw, cnt, r)
+}
+
+func c08genN(cw *caseWriter, cnt int, r *rng) {
 	tabs := closedCfgTab()
 	for k := 0; k < cnt; k++ {
 		g := &lsGen{}
